@@ -16,7 +16,7 @@ from .core import fbits, fhex, unhex, sha
 
 APIS = ('cost:r2', 'cost:rmspe', 'cost:rmsle', 'cost:rpd', 'cost:smape', 'rmse')
 MODES = ('shared', 'default', 'fresh')
-MOVES = ('refine', 'coarsen', 'shift', 'subset', 'all', 'ends', 'repeat')
+MOVES = ('refine', 'coarsen', 'shift', 'subset', 'all', 'ends', 'repeat', 'blocks')
 FAULTS = ('RESTART', 'SNAPSHOT', 'ROLLBACK', 'DUP', 'HANDOVER')
 DIAG_FAULTS = ('EVICT', 'INTERRUPT')
 
@@ -41,6 +41,12 @@ def _move(rng, n, R, kind):
         if n > 2:
             k = rng.randint(0, min(n - 2, 12))
             R = sorted([0, n - 1] + rng.sample(range(1, n - 1), k))
+    elif kind == 'blocks':
+        # segments of exactly L points (block sizes of chunked implementations), remainder at the end
+        L = rng.choice([3, 4, 8, 16, 32, 64, 128, 256, 512, 1024])
+        if n > L:
+            R = list(range(0, n - 1, L - 1)) + [n - 1]
+            R = sorted(set(R))
     elif kind == 'all':
         R = list(range(n))
     elif kind == 'ends':
@@ -138,7 +144,7 @@ def gen_plan(rng, tier='quick', config='B', traces=None):
             if len(R) > 32:      # MIP costs one evaluation per interior breakpoint (and the oracle as many again)
                 R = sorted([R[0], R[-1]] + rng.sample(R[1:-1], 30))
             if len(R) > 2:
-                steps.append({'s': s, 'op': 'MIP', 'R': list(R)})
+                steps.append({'s': s, 'op': 'MIP', 'R': list(R), 'rt': rng.choice(['nd', 'nd', 'nd32', 'nd16'])})
                 prev_kind = 'MIP'
                 continue
         if r < mip_rate + grdp_rate and n >= 3 and sessions[s]['api'] != 'rmse':
@@ -150,7 +156,7 @@ def gen_plan(rng, tier='quick', config='B', traces=None):
         kind = rng.choice(moves)
         R = _move(rng, n, cur[s], kind)
         cur[s] = R
-        q = {'s': s, 'op': 'Q', 'R': list(R), 'rt': rng.choice(['nd', 'nd', 'list', 'slist'])}
+        q = {'s': s, 'op': 'Q', 'R': list(R), 'rt': rng.choice(['nd', 'nd', 'list', 'slist', 'nd32', 'nd16'])}
         steps.append(q)
         last_q[s] = q
         prev_kind = kind if kind in ('refine', 'coarsen') else 'Q'
@@ -191,6 +197,10 @@ def _call(ev, metrics, sess, R, rt, cache_kind):
     ({}), 'omitted' (argument not passed)."""
     if rt == 'nd':
         Rarg = np.array(R, dtype=np.int64)
+    elif rt == 'nd32':
+        Rarg = np.array(R, dtype=np.int32)
+    elif rt == 'nd16':
+        Rarg = np.array(R, dtype=np.int16 if len(sess.points) < 30000 else np.int32)
     elif rt == 'slist':
         # one list object per session, edited in place between queries (what rdp._grdp does: append + sort)
         sess.rlist[:] = [int(r) for r in R]
@@ -296,6 +306,8 @@ def execute(plan, stats=None, check=True, want_events=True):
                     bump('probe.list_typed_R')
                 if rt == 'slist':
                     bump('probe.same_list_object_edited_in_place')
+                if rt in ('nd32', 'nd16'):
+                    bump('probe.narrow_int_R')
                 if r_sess[0] == 'exc':
                     raise Violation('O2', k, 'query raised on valid input: ' + r_sess[1])
                 v = r_sess[1]
@@ -333,7 +345,8 @@ def execute(plan, stats=None, check=True, want_events=True):
                         _check_definition(s, R, v, k, bump)
             elif op == 'MIP':
                 R = stp['R']
-                r = _try(ev.mip, s.points, np.array(R, dtype=np.int64))
+                mdt = {'nd32': np.int32, 'nd16': np.int16 if len(s.points) < 30000 else np.int32}.get(stp.get('rt'), np.int64)
+                r = _try(ev.mip, s.points, np.array(R, dtype=mdt))
                 bump('mip_calls')
                 if r[0] == 'exc':
                     raise Violation('O5', k, 'mip raised on valid input: ' + r[1])
